@@ -332,7 +332,7 @@ func (vc *VC) sortSearch(st *State, n Val, f Val, pos token.Pos) Val {
 	guard := st.clone()
 	guard.assume(vc, And(Le("0", j), Lt(j, n.S)))
 	rj := vc.inline(guard, f.Fn, f.Fr, []Val{IntV(j, tInt)}, types.Typ[types.Bool])
-	vc.searchRes = append(vc.searchRes, i)
+	vc.searchRes = append(vc.searchRes, i, j)
 	var cl *Clause
 	if vc.depth == 0 && vc.Con != nil {
 		for _, c := range vc.Con.Of("search") {
